@@ -40,36 +40,48 @@ from props.base import corpus_for
 ID = 'C17'
 LEAN_MODULES = ['PybtexModel.Props.C17', 'PybtexModel.Props.WiringC17']
 THEOREMS = {
-    'C17_parse_entry_points': 'BaseParser (both unicode_io values) and the classes whose parse_string is the text core (BibTeX; BibTeXML after fix C17-4): if the '
-                              'codec represents the text (dec(enc s) = s, the only fact used about it) and the ONE open call parse_file makes succeeds, '
-                              'parse_bytes(enc s) = parse_stream(stream of s) = parse_file(file-like) = parse_file(file containing enc s) = parse_files([base], suffix) '
-                              '= parse_string(s)',
+    'C17_parse_entry_points': 'BaseParser (both unicode_io values; BibTeX; BibTeXML after fix C17-4), codec and parsing core abstract: IF dec(enc s) = s, the name IS AN EXISTING FILE '
+                              '(hfile), the one open call succeeds on a file holding enc s, AND for unicode_io classes s CONTAINS NO CARRIAGE RETURN (hnl), THEN parse_bytes(enc s) = '
+                              'parse_stream = parse_file(file-like) = parse_file(path) = parse_files([base], suffix) = parse_string(s); with CR / not a file: the next two entries',
+    'C17_parse_file_newlines': 'the true file/string relation when the text has carriage returns: name is a file, the one open succeeds, file holds enc s, dec(enc s) = s => a unicode_io '
+                               'class parses the file as parse_string(univNl s) (CRLF and lone CR -> LF, the text-mode translation), a byte class as parse_string(s); univNl s is '
+                               'CR-free and is s when s is CR-free',
+    'C17_parse_file_any_location': 'the same WITHOUT "the name is a file": only "pybtex.io._open ends with a handle whose file holds enc s" is assumed (the name itself, the bytes path '
+                                   'kpsewhich printed, or the name again); parse_file = parse_string(univNl s) for unicode_io classes, parse_string(s) for byte classes or CR-free s',
     'C17_parse_entry_points_bibtexml': 'BibTeXML (reader after fix C17-4): for the DECLARED document the writer produces, enc(xmlDecl name ++ s ++ newline), with the '
-                                       'explicit hypotheses "the codec represents that document" (whatever it is called) and "ElementTree ignores the declaration inside a str": '
-                                       'parse_bytes = parse_stream = parse_file(file-like) = parse_file(path) = parse_string(s)',
+                                       'explicit hypotheses "the codec represents that document" (whatever it is called), "ElementTree ignores the declaration inside a str" (hdecl), the declared '
+                                       'document is CR-free (hnl), the name is an existing file whose one open succeeds: parse_bytes = parse_stream = parse_file(file-like) = parse_file(path) = parse_string(s)',
     'C17_parse_files': 'parse_files is the sequential composition of parse_file on one parser: no file -> the database unchanged and nothing opened; fs1 ++ fs2 -> fs1 then fs2 '
                        'on the result; a failure in the middle -> that error, the events so far, no later file looked at',
-    'C17_write_entry_points': 'BaseWriter: unicode_io -> to_bytes = enc(to_string) unconditionally; byte plug-ins -> to_string = dec(to_bytes) and write_file leaves '
+    'C17_write_entry_points': 'BaseWriter (codec and printing core abstract; to_string / to_bytes are both defined through write_stream in the model): unicode_io -> to_bytes = enc(to_string) unconditionally; byte plug-ins -> to_string = dec(to_bytes) and write_file leaves '
                               'exactly to_bytes after one open; a file-like object receives what write_stream writes; core errors are the same everywhere '
                               '(world: only the one open call write_file makes is assumed to succeed)',
     'C17_write_file_partial': 'unicode_io plug-ins: write_file leaves exactly to_bytes in the file after one text-mode open with the encoding, PROVIDED write_stream '
                               'calls stream.write at least once or the codec encodes "" as no bytes',
     'C17_write_file_neg': 'witness that the proviso is needed: no write call + byte-order-mark codec: to_bytes is the mark, the file stays empty (finding C17-empty-document-bom)',
-    'C17_write_entry_points_bibtexml': 'BibTeXML: to_bytes = enc(XML declaration naming the encoding ++ to_string ++ newline); write_file writes exactly that',
+    'C17_write_entry_points_bibtexml': 'BibTeXML, UNDER hshape (the pretty-XML body, an abstract parameter, is strip(body) ++ one newline: ASSUMED, the text-level _PrettyXMLWriter is not '
+                                       'modelled) and hutf8 (the hard-wired UTF-8 codec round-trips) and one successful wb open: to_bytes = enc(XML declaration naming the encoding ++ to_string '
+                                       '++ newline); write_file leaves exactly that',
+    'C17_write_entry_points_bibtexml_body': 'BibTeXML WITHOUT hshape, hutf8 only for the body at hand: to_string = strip(body), to_bytes = enc(declaration ++ body), write_file leaves exactly '
+                                            'to_bytes after one wb open; "to_bytes = declaration ++ to_string ++ newline" holds for a document IFF its body has the shape hshape',
+    'C17_write_entry_points_bibtexml_shape_neg': 'witness that hshape is needed: a core whose XML body ends in two newlines has to_bytes different from enc(declaration ++ to_string ++ newline)',
     'C17_suffix_eq_name': 'regenerated tables: every suffix entry is found from EVERY file name dir/stem.sfx, its class is reachable by a name or alias, and every '
                           'named class with a default_suffix is what that suffix selects',
     'C17_module_functions': 'database.parse_* / BibliographyData.to_*: a class given as format is used as it is, no format + unnamed stream = the default plug-in, and over the '
-                            'regenerated tables every reader / writer suffix selects from every file name the class some format name selects',
+                            'regenerated tables every reader / writer suffix selects from every file name dir/stem.sfx the class SOME format name or alias selects (existential: which name '
+                            'is not stated -- weaker than "suffix = naming it" for a fixed pairing)',
     'C17_tables_wf': 'regenerated tables: no duplicate (group, name), groups are base groups or their .aliases/.suffixes, defaults exist, importlib.metadata = setup.py',
     'C17_classes_wf': 'regenerated class wiring (unicode_io + overridden entry points) of every installed reader/writer is one the model knows, and the three formats '
                       'are wired as the theorems are applied to them',
-    'C17_runtime_plugins': 'after ANY history: a free or forced key registers (True), then yields exactly the new class, other keys untouched; a taken key unforced '
+    'C17_runtime_plugins': 'after ANY history, for a key (group, name) that PASSES THE ARGUMENT CHECKS (hb: name non-empty / suffix starts with a period ...: baseGroup succeeds; hd: '
+                           'the base group is a known plug-in group): a free or forced key registers (True), then yields exactly the new class, other keys untouched; a taken key unforced '
                            'returns False and the registry is unchanged; the two-table implementation refines the one-table reference for the whole history',
     'C17_runtime_found_like_installed': 'a run-time name is found by name, a run-time alias by name unless a real name hides it, a run-time suffix from every file name dir/stem.sfx',
     'C17_installed_not_shadowed': 'after ANY history without a forced registration every installed key still yields its installed class',
     'C17_enumerate_plugin_names': 'enumerate_plugin_names lists exactly the names an exact lookup in the group finds (run-time and installed alike, never an alias or suffix), '
                                   'run-time names first; a registration in another group never changes it',
-    'C17_open_faults': 'all worlds: file-like passes through; every failure is the PybtexError for the name given; read = one attempt (name if file, else what kpsewhich '
+    'C17_open_faults': 'all worlds whose io.open / Popen fail ONLY with EnvironmentError (Env.opener : Except IOErr; LookupError of an unknown encoding, ValueError are not representable): '
+                       'file-like passes through; every such failure is the PybtexError for the name given; read = one attempt (name if file, else what kpsewhich '
                        'returned, else name); write = first attempt, then TEXMFOUTPUT-joined second attempt iff set, success there is success, double failure reports the first error',
     'C17_kpsewhich': 'pybtex.kpathsea.kpsewhich for every behaviour of the program: cannot be started -> pybtex error for the name, nothing opened; non-zero exit -> the name '
                      'itself is opened; exit 0 -> the printed bytes minus trailing ASCII white space are opened as a bytes path (the name itself if nothing is left)',
@@ -95,6 +107,12 @@ ASSUMPTIONS = ['POSIX: writing to a text-mode file translates nothing (os.linese
                'hence finding C17-empty-document-bom: EMPTY document written without any write call under a BOM-writing codec (utf-16, utf-32, utf-8-sig: "".encode gives '
                'the BOM): its witness cases are generated only when the finding is listed in known_findings.json, skipped (bucket entrypoints:skip) otherwise',
                'a (format, encoding) pair is exercised only when the encoding can represent the document',
+               'BibTeXML writer: the characters _PrettyXMLWriter sends through the XMLGenerator are an abstract parameter (WriterCore.xmlBody); that this body is '
+               'strip(body) followed by exactly one newline is hypothesis hshape of C17_write_entry_points_bibtexml (needed: _shape_neg; without it: _body), and that the '
+               'hard-wired UTF-8 codec round-trips the body is hypothesis hutf8; both are exercised by the correspondence on every BibTeXML case, never proved',
+               'failures of io.open and of starting kpsewhich are EnvironmentErrors (IOErr): the only failures pybtex.io converts; an unknown encoding name (LookupError) or a '
+               'ValueError from io.open propagates unconverted in the code and has no representation in the model',
+               'parse_file = parse_string needs CR-free text for unicode_io readers (C17_parse_entry_points hnl); otherwise the relation is univNl (C17_parse_file_newlines)',
                'BibTeXML reader: the model follows /repo WITH proposed fix C17-4 (the reader decodes with the encoding it was given); "ElementTree ignores an XML '
                'declaration inside a str" is hypothesis hdecl of C17_parse_entry_points_bibtexml, exercised by the correspondence']
 SERIAL = False
@@ -1916,7 +1934,9 @@ LEVEL_NOTE = ('PARTIAL by nature. MODELLED and proved: which core function each 
               'printing cores (BibTeX reader/writer, PyYAML, xml.sax, ElementTree: "ElementTree ignores the XML declaration inside a str" is hypothesis hdecl), the '
               'kpsewhich program, os.environ, importlib.metadata (its answer is regenerated into Gen/Plugins.lean and compared with setup.py; stale metadata breaks '
               'the build), latexcodec. Not covered: undecodable bytes handed to parse_bytes (UnicodeDecodeError by design of the API), streams of the wrong kind '
-              '(text stream to a byte plug-in), newline translation on non-POSIX platforms, concurrent modification of the registry. The model follows /repo WITH '
+              '(text stream to a byte plug-in), failures of io.open other than EnvironmentError (Env.opener returns Except IOErr: a LookupError for an unknown encoding name or a '
+              'ValueError cannot be represented, so "every failure is the PybtexError for the name given" quantifies over EnvironmentErrors only), the shape of the pretty-printed '
+              'XML body (hypothesis hshape, see ASSUMPTIONS), newline translation on non-POSIX platforms, concurrent modification of the registry. The model follows /repo WITH '
               'proposed fixes C17-1 (plugin), C17-2 (YAML plug-ins honour `encoding`), C17-3 (BibTeXML parse_string), C17-4 (BibTeXML reader decodes with the encoding '
               'it was given: proposed_fixes/C17-4.*; on a tree without it the check reports the BibTeXML byte / file entry points under e.g. encoding utf8 as a '
               'failing input). Recorded boundary (finding C17-empty-document-bom, C17_write_file_partial / _neg): for an EMPTY document written without any write '
